@@ -99,7 +99,7 @@ fn ty_of_type(t: &Type) -> (Ty, bool) {
             let ty = match s.as_str() {
                 "u64" | "BID_UINT64" | "usize" => Ty::U64, "u32" | "BID_UINT32" | "_IDEC_flags" => Ty::U32, "u8" => Ty::U8,
                 "i32" => Ty::I32, "i64" | "BID_SINT64" => Ty::I64, "bool" => Ty::Bool, "u128" => Ty::N,
-                "BID_UINT128" | "d128" | "Self" => Ty::W(128), "Ordering" => Ty::Ord, "H" => Ty::Hasher,
+                "BID_UINT128" | "d128" | "Self" | "Output" => Ty::W(128), "Ordering" => Ty::Ord, "H" => Ty::Hasher,
                 "Option" => {
                     let inner = match &p.path.segments.last().unwrap().arguments { PathArguments::AngleBracketed(a) => a.args.first().and_then(|g| if let GenericArgument::Type(t) = g { Some(ty_of_type(t).0) } else { None }), _ => None };
                     if inner == Some(Ty::Ord) { Ty::OptOrd } else if inner == Some(Ty::W(128)) { Ty::Opt128 } else { Ty::Unknown }
@@ -383,7 +383,7 @@ impl<'a> FnCtx<'a> {
             Expr::Call(c) => {
                 let f = match &*c.func { Expr::Path(p) => path_str(&p.path), _ => bail!("call target") };
                 if f == "Default::default" || f.ends_with("::default") { return Ok(ex("default".into(), Ty::Unknown, false)); }
-                if f == "BID_UINT128::new" || f == "d128::new" {
+                if f == "BID_UINT128::new" || f == "d128::new" || (f == "Self::new" && self.ext) {
                     if !self.cx.new_is_lh { bail!("d128::new is not `Self {{ w: [l, h] }}`") }
                     let h = self.expr(&c.args[0], env)?; let l = self.expr(&c.args[1], env)?;
                     let hs = if h.untyped_lit { format!("({} : UInt64)", h.s) } else { h.s }; let ls = if l.untyped_lit { format!("({} : UInt64)", l.s) } else { l.s };
@@ -1139,6 +1139,24 @@ fn main() {
                                 if cx.fns.contains_key(&key) { ambiguous.insert(key.clone()); }
                                 fn_src.insert(key.clone(), name.clone());
                                 cx.fns.insert(key, ItemFn { attrs: f.attrs.clone(), vis: Visibility::Inherited, sig: f.sig.clone(), block: Box::new(f.block.clone()) });
+                                // trait impls also get a trait-qualified key (`d128::Add::add`, `d128::From_i32::from`, `d128::SumRef::sum`):
+                                // several impls define a method of the same name, and the third whitelist names them this way
+                                if let Some((_, tp, _)) = &im.trait_ {
+                                    let seg = tp.segments.last().unwrap();
+                                    let mut tn = seg.ident.to_string();
+                                    if let PathArguments::AngleBracketed(a) = &seg.arguments {
+                                        if let Some(GenericArgument::Type(t)) = a.args.first() {
+                                            match t {
+                                                Type::Reference(r) => { if let Type::Path(pp) = &*r.elem { let e = path_str(&pp.path); if e == "str" { tn.push_str("_str"); } else { tn.push_str("Ref"); } } }
+                                                Type::Path(pp) => { tn.push('_'); tn.push_str(&path_str(&pp.path)); }
+                                                _ => {}
+                                            }
+                                        }
+                                    }
+                                    let tkey = format!("d128::{}::{}", tn, f.sig.ident);
+                                    fn_src.insert(tkey.clone(), name.clone());
+                                    cx.fns.insert(tkey, ItemFn { attrs: f.attrs.clone(), vis: Visibility::Inherited, sig: f.sig.clone(), block: Box::new(f.block.clone()) });
+                                }
                             }
                         }
                     }
@@ -1158,8 +1176,8 @@ fn main() {
                 let (t, m) = ty_of_type(&pt.ty);
                 params.push((n, t, m));
             } else if let FnArg::Receiver(rc) = a {
-                if rc.mutability.is_some() { eprintln!("translate: &mut self in {}", w); std::process::exit(2); }
-                params.push(("self".to_string(), Ty::W(128), false));
+                if rc.mutability.is_some() && !ext_set.contains(w) { eprintln!("translate: &mut self in {}", w); std::process::exit(2); }
+                params.push(("self".to_string(), Ty::W(128), rc.mutability.is_some()));
             }
         }
         if ambiguous.contains(w) { eprintln!("translate: method name {} is defined by several impls", w); std::process::exit(2); }
@@ -1262,11 +1280,16 @@ fn main() {
         if part == 0 {
             s.push_str("/- GENERATED by bin/gen_decgen (translate/) from /repo/src/*.rs; do not edit.\n   One def per whitelisted Rust function, statement by statement; see DecModel/RustPrelude.lean. -/\nimport DecModel.RustPrelude\n");
         } else {
+            if args.len() >= 7 {
+                let _ = write!(s, "/- GENERATED by bin/gen_decgen (translate/) from /repo/src/*.rs; do not edit.\n   The routines of translate/{}, on top of DecGen/Code.lean. -/\nimport DecGen.Code\n", std::path::Path::new(&args[4]).file_name().unwrap().to_string_lossy());
+            } else {
             s.push_str("/- GENERATED by bin/gen_decgen (translate/) from /repo/src/*.rs; do not edit.\n   The routines of the second whitelist (translate/whitelist2.txt), on top of DecGen/Code.lean. -/\nimport DecGen.Code\n");
+            }
         }
         let mut tabs: Vec<&String> = if part == 0 { tables1.iter().collect() } else { cx.used_tables.iter().filter(|t| !tables1.contains(*t)).collect() }; tabs.sort();
         for t in tabs { let _ = writeln!(s, "import DecGen.T_{}", t); }
-        let ns = if part == 0 { "Dec.Gen.Code" } else { "Dec.Gen.Code2" };
+        let ns2 = if args.len() >= 7 { format!("Dec.Gen.{}", args[6]) } else { "Dec.Gen.Code2".to_string() };
+        let ns = if part == 0 { "Dec.Gen.Code" } else { ns2.as_str() };
         let _ = write!(s, "\nset_option linter.unusedVariables false\nset_option maxRecDepth 4096\n\nnamespace {}\nopen Dec.Rs{}\n\n", ns, if part == 0 { "" } else { " Dec.Gen.Code" });
         for d in &const_defs[part] { s.push_str(d); s.push('\n'); }
         s.push('\n');
